@@ -510,6 +510,19 @@ def rule_forms(ck):
         ce = u(exg.expand(cid)) if cid is not None else ''
         if "df['catalog_id']" not in ce.replace('"', "'"):
             probs.append('the catalog id is not taken from the catalog_id column')
+        # the id is handed on as it is read: a truthiness test on it (`int(v) if v else None`, `v or None`) turns id 0 into "no id"
+        from .common import truthiness_tests
+        raw = []
+        for a_ in find_assignments(g, cid.id) if isinstance(cid, ast.Name) else []:
+            raw.extend(truthiness_tests(a_.value) if getattr(a_, 'value', None) is not None else [])
+            for t_, pol_ in guards_of(a_, g.node):
+                if not isinstance(t_, ast.Compare) and cid.id in u(t_) and not (isinstance(t_, ast.Call)):
+                    raw.append((a_, t_))
+        if cid is not None and not isinstance(cid, ast.Name):
+            raw.extend(truthiness_tests(cid))
+        raw = [(n_, t_) for n_, t_ in raw if 'catalog_id' in u(t_) or (isinstance(cid, ast.Name) and cid.id in u(t_))]
+        if raw:
+            probs.append('the id is kept only if it is truthy (`%s`): catalog id 0 - the first catalog of every stochastic event set - comes back as None' % u(raw[0][0])[:70])
     (o.fail('from_dataframe does not select exactly the dtype columns as records / loses the catalog id: ' + '; '.join(probs)) if probs else o.ok())
     rule_row_order(ck)
     j = P.func(A + 'write_json')
